@@ -301,8 +301,29 @@ def run_batch(names, pool, max_step, processes, max_chunk_size, schedule):
     vp = VirtualPool(lambda k: schedule)
     parsing.Pool = vp
     parsing.time = VirtualTime(vp)
-    res = parsing.run(docs, srs, list(g.tags), list(g.roots), g.binary, g.unary, processes=processes,
-                      max_chunk_size=max_chunk_size, max_step=max_step, **cfg())
+    # a pool obtained through multiprocessing.get_context(...) is the same seam: every start method yields the virtual pool
+    import multiprocessing
+
+    class _Ctx(object):
+        def __init__(self, real):
+            self._real = real
+            self.Pool = vp
+
+        def __getattr__(self, name):
+            return getattr(self._real, name)
+    real_get_context, real_pool = multiprocessing.get_context, multiprocessing.Pool
+    multiprocessing.get_context = lambda *a, **k: _Ctx(real_get_context(*a, **k))
+    multiprocessing.Pool = vp
+    had = getattr(parsing, 'get_context', None)
+    if had is not None:
+        parsing.get_context = multiprocessing.get_context
+    try:
+        res = parsing.run(docs, srs, list(g.tags), list(g.roots), g.binary, g.unary, processes=processes,
+                          max_chunk_size=max_chunk_size, max_step=max_step, **cfg())
+    finally:
+        multiprocessing.get_context, multiprocessing.Pool = real_get_context, real_pool
+        if had is not None:
+            parsing.get_context = had
     return res, len(vp.tasks)
 
 
@@ -622,6 +643,59 @@ def real_pool_conformance(st, max_step):
             st.count('real_pool_unavailable')
 
 
+def bounded_real_pool_conformance(st, max_step, limit=120):
+    """the real-pool comparison in a child process group with a time limit: a real pool whose workers cannot start (another start
+    method, another way of creating the pool) must not hang the check; the comparison is a validation of the virtual pool, not a verdict"""
+    import pickle, signal, select
+    r, w = os.pipe()
+    pid = os.fork()
+    if pid == 0:
+        os.close(r)
+        os.setpgid(0, 0)
+        sub = core.Stats()
+        try:
+            real_pool_conformance(sub, max_step)
+            data = pickle.dumps(sub)
+        except BaseException as e:
+            sub.notes.append(f'real Pool conformance run raised {e!r}')
+            data = pickle.dumps(sub)
+        try:
+            with os.fdopen(w, 'wb') as f:
+                f.write(data)
+        finally:
+            os._exit(0)
+    os.close(w)
+    buf = b''
+    deadline = time.time() + limit
+    with os.fdopen(r, 'rb') as f:
+        while True:
+            left = deadline - time.time()
+            if left <= 0:
+                break
+            ready, _, _ = select.select([f], [], [], min(left, 1.0))
+            if ready:
+                chunk = os.read(f.fileno(), 1 << 16)
+                if not chunk:
+                    break
+                buf += chunk
+    try:
+        os.killpg(pid, signal.SIGKILL)
+    except ProcessLookupError:
+        pass
+    try:
+        os.waitpid(pid, 0)
+    except ChildProcessError:
+        pass
+    if buf:
+        try:
+            st.merge(pickle.loads(buf))
+            return
+        except Exception:
+            pass
+    st.notes.append(f'real Pool conformance run did not finish within {limit} s (not a verdict: the virtual pool decides)')
+    st.count('real_pool_unavailable')
+
+
 def batches(tier):
     names = sorted(sentence_pool())
     out = []
@@ -657,7 +731,7 @@ def check(tier, seed):
     SCENARIO[:] = ['g3']
     shape_faults(st, max_step)
     if not os.environ.get('VERIF_NO_REAL_POOL'):
-        real_pool_conformance(st, max_step)
+        bounded_real_pool_conformance(st, max_step)
     return core.finish(PROP, tier, seed, 'model_checking', st, t0,
                        rule=('pool of 7 sentences for G3 and a second scenario (grammar AMB: equal-score ambiguity through two derived categories whose ids depend on history; 4 sentences; 1-best and 2-best) (parseable creating new category ids, 3-word parseable, no parse, too long, exactly max_length words with equal-score ambiguity, '
                              'step budget exhausted, one word): every sequence of length <=3 with repetition and every permutation of subsets of size 4 (5 thorough) x processes {1,2,3,4} x max_chunk_size {0,1,2,20} '
